@@ -38,6 +38,7 @@ TF64 == B("float64")
 TStr == B("string")
 MyInt == Nm("MyInt", TInt)
 MySl == Nm("MySl", SlT(TInt))
+MyLab == Nm("MyLab", TStr)             \* the only type of the universe with a method: func (MyLab) String() string
 Under(t) == IF t.k = "n" THEN t.u ELSE t
 HasName(t) == t.k \in {"b", "n", "tp"}
 RECURSIVE HasTP(_)
@@ -47,7 +48,7 @@ HasTP(t) == CASE t.k = "tp" -> TRUE
               [] t.k = "fn" -> HasTP(t.r) \/ \E j \in 1..Len(t.ps) : HasTP(t.ps[j])
               [] OTHER -> FALSE
 
-ExplT(n) == CASE n = "int" -> TInt [] n = "float64" -> TF64 [] n = "string" -> TStr [] n = "MyInt" -> MyInt [] n = "MySl" -> MySl [] n = "[]int" -> SlT(TInt)
+ExplT(n) == CASE n = "int" -> TInt [] n = "float64" -> TF64 [] n = "string" -> TStr [] n = "MyInt" -> MyInt [] n = "MySl" -> MySl [] n = "MyLab" -> MyLab [] n = "[]int" -> SlT(TInt)
              [] n = "[]string" -> SlT(TStr) [] n = "[]float64" -> SlT(TF64)
 ExplTypes == {ExplT(n) : n \in ExplNames}
 
@@ -79,6 +80,8 @@ Sig(i) ==
     [] i = 16 -> Sg(<<"any", "any">>, <<TP(2)>>, FALSE)                                   \* Cast[R, T any](x T)
     [] i = 17 -> Sg(<<"any">>, <<>>, FALSE)                                               \* Mk[R any]()
     [] i = 18 -> Sg(<<"any", "any">>, <<TP(2), TP(1)>>, TRUE)                             \* Gather[T, U any](u U, xs ...T)   T only explicitly when xs is empty; also XGox_: Gather(T, u, xs...)
+    [] i = 20 -> Sg(<<"stringer">>, <<TInt>>, FALSE)                                        \* Show[T Stringer](x int)   T only explicitly; the constraint has a method
+    [] i = 19 -> Sg(<<"comparable">>, <<MapT(TP(1), TInt), TP(1)>>, TRUE)                    \* KeysX[K comparable](m map[K]int, extra ...K)   K occurs besides the variadic tail only as a map key
 NTP(s) == Len(s.tps)
 
 (* ---- unification ---- *)
@@ -143,6 +146,7 @@ Satisfies(bd, s, i) ==
     [] c = "comparable" -> Comparable(t)
     [] c = "num" -> t \in {TInt, TF64}
     [] c = "aint" -> Under(t) = TInt
+    [] c = "stringer" -> t = MyLab                                                       \* a constraint with a method: interface{ String() string }
     [] c = "core" -> Under(t) = SlT(bd[2])
 RECURSIVE Subst(_, _)
 Subst(t, bd) == CASE t.k = "tp" -> bd[t.i]
